@@ -113,7 +113,7 @@ def corr_templates(ctx, sf):
         sf.hbar = hbar
         prog = sf.Program(4)
         for cls in classes:
-            for _ in range(ctx.n(4, 40)):
+            for _ in range(ctx.n(6, 120)):
                 pars = scalar_pars(rng, cls, small=rng.random() < 0.5)
                 regs = rng.sample(range(4), nmodes(cls))
                 dagger = cls != "DisplacedSqueezed" and rng.random() < 0.5
@@ -212,7 +212,7 @@ def corr_driver(ctx, sf):
         except NotImplementedError as e:
             return ("NotImplementedError", str(e))
 
-    for it in range(ctx.n(90, 900)):
+    for it in range(ctx.n(150, 3000)):
         cname = COMPILERS[it % 3]
         comp = compiler_db[cname]()
         n = 4
@@ -229,7 +229,7 @@ def corr_driver(ctx, sf):
                          cmds=[dict(cls=o["cls"], atoms=[dec02.fr(a) for a in dec02.input_atoms(o["cls"], o["pars"])],
                                     regs=o["regs"], dagger=o["dagger"]) for o in ops_]))
         ctx.count(f"driver:scalar:{cname}", spec, True, sample=dict(compiler=cname, spec=spec))
-    for it in range(ctx.n(45, 450)):
+    for it in range(ctx.n(60, 1500)):
         cname = COMPILERS[it % 3]
         comp = compiler_db[cname]()
         n = 5
@@ -312,7 +312,7 @@ def corr_mesh(ctx, sf):
     rng, rs = ctx.rng, ctx.nprng(2)
     tol = float(ops._decomposition_tol)
     cases, reqs = [], []
-    for it in range(ctx.n(160, 1600)):
+    for it in range(ctx.n(250, 5000)):
         m = rng.randint(2, 6)
         big = m + rng.randint(0, 2)
         prog = sf.Program(big)
@@ -481,7 +481,7 @@ def oracle_scalar(ctx, sf):
                               sample=dict(cls=cls, pars=pars, regs=list(regs), dagger=dagger, backend=backend))
                     scalar_case(ctx, sf, cls, pars, list(regs), dagger, 3, backend, hbar, prefix)
     # random parameters, 3-4 modes
-    for it in range(ctx.n(60, 900)):
+    for it in range(ctx.n(120, 3000)):
         cls = rng.choice(SCALAR1 + SCALAR2)
         n = rng.choice([3, 3, 4])
         regs = rng.sample(range(n), nmodes(cls))
@@ -494,7 +494,7 @@ def oracle_scalar(ctx, sf):
     # Fock back end (decomposes X, Z, P, CX, CZ, sMZ, Fourier; S2 and MZ natively): every class, ordered targets
     # drawn so that descending pairs and mode 0 as second target occur
     pairs3 = list(itertools.permutations(range(3), 2))
-    for it in range(ctx.n(44, 500)):
+    for it in range(ctx.n(72, 1500)):
         cls = (SCALAR1 + SCALAR2)[it % 9]
         n = 3 if it % 4 else 2
         k = nmodes(cls)
@@ -511,7 +511,7 @@ def oracle_native_vs_decomposed(ctx, sf):
     rng = ctx.rng
     plan = [("fock", "S2gate"), ("fock", "MZgate"), ("fock", "DisplacedSqueezed"), ("gaussian", "DisplacedSqueezed"),
             ("bosonic", "DisplacedSqueezed")]
-    for it in range(ctx.n(25, 300)):
+    for it in range(ctx.n(40, 1000)):
         backend, cls = plan[it % len(plan)]
         n = 3 if backend != "fock" or it % 2 else 2
         regs = rng.sample(range(n), nmodes(cls))
@@ -686,7 +686,7 @@ def gaussian_case(ctx, sf, V2, r, regidx, n, hbar, backend, rp):
 
 def oracle_gaussian_prep(ctx, sf):
     rng, rs = ctx.rng, ctx.nprng(4)
-    for it in range(ctx.n(70, 700)):
+    for it in range(ctx.n(140, 3000)):
         branch = GAUSS_KINDS[it % len(GAUSS_KINDS)]
         k = rng.choice([1, 2, 2, 3])
         n = k + rng.choice([0, 1])
@@ -738,7 +738,7 @@ def matrix_case(ctx, sf, rp):
 
 def oracle_matrix_ops(ctx, sf):
     rng, rs = ctx.rng, ctx.nprng(5)
-    for it in range(ctx.n(45, 450)):
+    for it in range(ctx.n(90, 2000)):
         kind = ["GaussianTransform", "GaussianTransform", "GraphEmbed", "BipartiteGraphEmbed", "GaussianTransform"][it % 5]
         k = rng.choice([2, 2, 3, 4])
         if kind == "BipartiteGraphEmbed":
